@@ -57,6 +57,9 @@ type Exec struct {
 	curFr    *Frame
 	curIns   ssa.Instruction
 	atcallUsed map[string]bool
+	absRecv  *Val   // receiver whose state defines abstracted ghost globals (see Abstraction)
+	absType  string
+	nameSuffix string
 }
 
 type Frame struct {
@@ -116,7 +119,7 @@ func (x *Exec) oblName(kind, site, label string) string {
 }
 
 func (x *Exec) fnKeyShort() string {
-	return strings.ReplaceAll(x.fnKey, modPath+"/", "")
+	return strings.ReplaceAll(x.fnKey, modPath+"/", "") + x.nameSuffix
 }
 
 func shortKey(k string) string { return strings.ReplaceAll(k, modPath+"/", "") }
